@@ -56,11 +56,16 @@ func (f *fakeSock) Write(p []byte) (int, error) {
 	f.writes = append(f.writes, append([]byte{}, p...))
 	return len(p), nil
 }
-func (f *fakeSock) Close() error                       { return nil }
-func (f *fakeSock) LocalAddr() net.Addr                { return &net.TCPAddr{} }
-func (f *fakeSock) RemoteAddr() net.Addr               { return &net.TCPAddr{} }
-func (f *fakeSock) SetDeadline(t time.Time) error      { return nil }
-func (f *fakeSock) SetReadDeadline(t time.Time) error  { return nil }
+func (f *fakeSock) Close() error                  { return nil }
+func (f *fakeSock) LocalAddr() net.Addr           { return &net.TCPAddr{} }
+func (f *fakeSock) RemoteAddr() net.Addr          { return &net.TCPAddr{} }
+func (f *fakeSock) SetDeadline(t time.Time) error { return nil }
+func (f *fakeSock) SetReadDeadline(t time.Time) error {
+	if t.IsZero() {
+		time.Sleep(2 * time.Millisecond) // lifting a deadline is a system call: it takes a moment
+	}
+	return nil
+}
 func (f *fakeSock) SetWriteDeadline(t time.Time) error { return nil }
 
 // ---- a fake WebSocket frame source -----------------------------------------------------------------
@@ -234,6 +239,30 @@ func fanout(nSubs, nMsgs int) (sent [][]byte, recv [][][]byte) {
 	return
 }
 
+// ---- a root listener that hands out scripted connections ---------------------------------------------
+
+type fakeRoot struct {
+	conns  chan net.Conn
+	closed chan struct{}
+}
+
+type rootClosed struct{}
+
+func (rootClosed) Error() string   { return "root listener closed" }
+func (rootClosed) Timeout() bool   { return false }
+func (rootClosed) Temporary() bool { return false }
+
+func (f *fakeRoot) Accept() (net.Conn, error) {
+	select {
+	case c := <-f.conns:
+		return c, nil
+	case <-f.closed:
+		return nil, rootClosed{}
+	}
+}
+func (f *fakeRoot) Close() error   { return nil }
+func (f *fakeRoot) Addr() net.Addr { return &net.TCPAddr{} }
+
 // ---- helpers ------------------------------------------------------------------------------------------
 
 func partition(stream []byte) [][]byte {
@@ -345,6 +374,54 @@ func main() {
 		sh.Add(vlib.App("CMatch", vlib.Bytes(stream), vlib.Bytes(got)),
 			map[string]interface{}{"op": "matchers", "stream": len(stream), "matchers_run": used}, "matchers", true)
 	}
+	// A3. the whole multiplexing listener: connections are matched (HTTP first, anything else after)
+	// with a read timeout configured, accepted and read at once; every byte of the stream, in order, once
+	{
+		root := &fakeRoot{conns: make(chan net.Conn), closed: make(chan struct{})}
+		l := listener.VerifNewListener(root, 60)
+		l.SetReadTimeout(120 * time.Second)
+		httpL := l.Match(listener.MatchHTTP())
+		anyL := l.Match(listener.MatchAny())
+		l.HandleError(func(error) bool { return false })
+		go l.Serve()
+		type accepted struct {
+			got  []byte
+			http bool
+		}
+		results := make(chan accepted, 4)
+		for _, ml := range []net.Listener{httpL, anyL} {
+			go func(ml net.Listener, isHTTP bool) {
+				for {
+					c, err := ml.Accept()
+					if err != nil {
+						return
+					}
+					got, _ := io.ReadAll(c)
+					results <- accepted{got, isHTTP}
+				}
+			}(ml, ml == httpL)
+		}
+		for i := 0; i < 60*cfg.Mult; i++ {
+			var stream []byte
+			switch r.Intn(3) {
+			case 0:
+				stream = []byte("GET /keygen HTTP/1.1\r\nHost: x\r\n\r\nbody-" + fmt.Sprint(i))
+			case 1:
+				stream = append([]byte{0x10, 0x0c, 0, 4, 'M', 'Q', 'T', 'T', 4, 2, 0, 60, 0, 0}, vlib.RandBytes(r, r.Intn(30))...)
+			default:
+				stream = vlib.RandBytes(r, 1+r.Intn(60))
+			}
+			root.conns <- &fakeSock{chunks: partition(append([]byte{}, stream...))}
+			var res accepted
+			select {
+			case res = <-results:
+			case <-time.After(3 * time.Second):
+			}
+			sh.Add(vlib.App("CMatch", vlib.Bytes(stream), vlib.Bytes(res.got)),
+				map[string]interface{}{"op": "listener", "stream": len(stream), "accepted_as_http": res.http}, "listener/serve", true)
+		}
+		close(root.closed)
+	}
 	// B. WebSocket reads over fragmented messages with control frames and empty messages in between
 	for i := 0; i < 300*cfg.Mult; i++ {
 		f := &fakeWS{}
@@ -373,6 +450,9 @@ func main() {
 		var wr [][]byte
 		for k := r.Intn(4); k > 0; k-- {
 			b := vlib.RandBytes(r, r.Intn(20))
+			if r.Intn(6) == 0 { // a large packet: still one message
+				b = bytes.Repeat([]byte{byte(r.Intn(256))}, vlib.Pick(r, 16384, 16385, 17000, 40000, 65536))
+			}
 			t.Write(b)
 			wr = append(wr, b)
 		}
@@ -391,6 +471,9 @@ func main() {
 				ops = append(ops, vlib.App("WFlush", vlib.N(uint64(c.Len())), bytesList(sock.writes)))
 			} else {
 				p := vlib.RandBytes(r, 1+r.Intn(6))
+				if r.Intn(6) == 0 { // a large packet behind (or in front of) small ones
+					p = bytes.Repeat([]byte{byte(r.Intn(256))}, vlib.Pick(r, 8192, 8193, 9000, 20000))
+				}
 				c.Write(p)
 				ops = append(ops, vlib.App("WWrite", vlib.Bytes(p), vlib.N(uint64(c.Len())), bytesList(sock.writes)))
 			}
@@ -496,5 +579,5 @@ func main() {
 		sh.Add(vlib.App("CFan", bytesList(sent), vlib.List(rt)),
 			map[string]interface{}{"op": "wide channel", "subscribers": nSubs, "messages": nMsgs}, "broker/fan-out", true)
 	}
-	sh.Finish("random streams split into socket reads of 1-40 bytes; 0-3 sniffing rounds with read sizes 1-12, then post-sniffing reads; the real HTTP / prefix / any matchers; WebSocket messages (binary, text, ping, pong, close; empty payloads) read with buffers of 1-12 bytes; write/flush sequences at rates 1, 2, 3, 1000 incl. limiter refill; 6 concurrent writers x 400 packets against a busy flusher; 6 concurrent senders x 300 frames through the WebSocket transport over a one-writer-at-a-time socket; a real broker with 3-20 subscribers of one channel and a publisher writing 60 PUBLISH packets back to back; non-trivial: non-empty stream / message list")
+	sh.Finish("random streams split into socket reads of 1-40 bytes; 0-3 sniffing rounds with read sizes 1-12, then post-sniffing reads; the real HTTP / prefix / any matchers; WebSocket messages (binary, text, ping, pong, close; empty payloads) read with buffers of 1-12 bytes; write/flush sequences at rates 1, 2, 3, 1000 incl. limiter refill, packets of 1-6 and of 8192-20000 bytes; WebSocket writes of up to 65536 bytes; 6 concurrent writers x 400 packets against a busy flusher; 6 concurrent senders x 300 frames through the WebSocket transport over a one-writer-at-a-time socket; a real broker with 3-20 subscribers of one channel and a publisher writing 60 PUBLISH packets back to back; non-trivial: non-empty stream / message list")
 }
